@@ -644,7 +644,7 @@ B('c07-logical-to-rgb-out', 'C07', 'R07.c', UNITS,
     return [r * 100.0, g * 100.0, b * 100.0, logical_color[3]]""",
   """    r, g, b = colorsys.hsv_to_rgb(h, s, v)
     return [r * 100.0, g * 10.0, b * 100.0, logical_color[3]]""")
-B('c07-wait-raw-seconds', 'C07', 'R07.c', MACHINE,
+B('c07-wait-raw-seconds', 'C07', 'R14.d', MACHINE,
   "                time /= 1000.0", "                time /= 100.0")
 N('c07-hex-to-decimal', 'C07', PARAMH,
   "    return round(max(0, min(param, 0xffff)))", "    return round(min(65535, max(param, 0)))")
@@ -1462,3 +1462,34 @@ N('c07-hue-branches-swapped', 'C07', UNITS,
         h = (logical_value % 360.0) / 360.0 * 65535.0
     else:
         h = 0.0""")
+B('c14-wait-divides-unless-logical', 'C14', 'R14.d', MACHINE,
+  "            if self._reg.unit_mode is UnitMode.RAW:\n                time /= 1000.0",
+  "            if self._reg.unit_mode is not UnitMode.LOGICAL:\n                time /= 1000.0")
+B('c14-raw-time-only-logical', 'C14', 'R14.d', MACHINE,
+  "        if self._reg.unit_mode in (UnitMode.LOGICAL, UnitMode.RGB):\n            return units.time_raw(value)",
+  "        if self._reg.unit_mode is UnitMode.LOGICAL:\n            return units.time_raw(value)")
+B('c14-assure-units-rgb-as-logical', 'C14', 'R14.d', MACHINE,
+  "        if self._reg.unit_mode is UnitMode.LOGICAL:\n            return units.raw_to_logical(color)\n        return units.raw_to_rgb(color)",
+  "        return units.raw_to_logical(color)")
+N('c14-wait-raw-test-negated', 'C14', MACHINE,
+  "            if self._reg.unit_mode is UnitMode.RAW:\n                time /= 1000.0",
+  "            if self._reg.unit_mode not in (UnitMode.LOGICAL, UnitMode.RGB):\n                time = time / 1000.0")
+B('c08-idle-read-before-lock', 'C08', 'R08.a', JOBS,
+  "        agent = None\n        if self._acquire_lock():\n            try:\n                agent = Agent(job, self._on_execution_done, name)\n                append_fn(agent)\n                if self._active_agent is None:",
+  "        agent = None\n        idle = self._active_agent is None\n        if self._acquire_lock():\n            try:\n                agent = Agent(job, self._on_execution_done, name)\n                append_fn(agent)\n                if idle:")
+B('c20-stop-by-raw-path', 'C20', 'R20.e', WEBAPP,
+  "        return self._jobs.stop_job(script_control.path)", "        return self._jobs.stop_job(path)")
+B('c20-running-asked-by-raw-path', 'C20', 'R20.e', WEBAPP,
+  "            script_control.running = self._jobs.is_running(script_control.path)",
+  "            script_control.running = self._jobs.is_running(path)")
+N('c20-job-name-through-local', 'C20', WEBAPP,
+  "            script_control.running = self._jobs.is_running(script_control.path)",
+  "            job_name = script_control.path\n            script_control.running = self._jobs.is_running(job_name)")
+B('c09-clock-shared-instance', 'C09', 'R09.f', CLOCK,
+  "    injection.bind(Clock).to(i_lib.Clock)", "    injection.bind_instance(Clock()).to(i_lib.Clock)")
+B('c01-clock-rebased-at-start-of-wait', 'C01', 'R01.f', CLOCK,
+  "        hour, minute = Clock._hour_minute()\n        while not time_pattern.match(hour, minute):",
+  "        self.reset()\n        hour, minute = Clock._hour_minute()\n        while not time_pattern.match(hour, minute):",
+  CLOCK, "            hour, minute = Clock._hour_minute()\n        self.reset()", "            hour, minute = Clock._hour_minute()")
+B('c01-clock-not-rebased', 'C01', 'R01.f', CLOCK,
+  "            hour, minute = Clock._hour_minute()\n        self.reset()", "            hour, minute = Clock._hour_minute()")
